@@ -8,6 +8,7 @@ round trip of `integrate` + `interpolate` for vector-valued dyadic tables, `Hier
 sides of the 15-point dense/QR switch) and re-multiplied with the tensor collocation operator, the Lagrange cardinal
 property, polynomial reproduction off the nodes, derivative vs. finite differences, `get_integral` vs. scipy.quad."""
 import itertools
+import os
 import math
 import random
 import traceback
@@ -500,12 +501,33 @@ def run_basis_case(ctx, drv, case):
 
 
 # ---------------------------------------------------------------------------------------------- grids
+class _Recorder(object):
+    """stands in for `integrator.hierarchization` during one integrate and records what it is called with"""
+
+    def __init__(self, inner):
+        self.inner = inner
+        self.seen = None
+
+    def __call__(self, grid_values, numPoints, grid):
+        self.seen = (np.array(grid_values, dtype=float, copy=True), list(numPoints))
+        return self.inner(grid_values, numPoints, grid)
+
+    def __getattr__(self, name):
+        return getattr(self.inner, name)
+
+
 def build_grid(case):
     from sparseSpACE import Grid as G
     a = np.array([float(Fraction(t)) for t in case["a"]])
     b = np.array([float(Fraction(t)) for t in case["b"]])
     cls = getattr(G, case["family"])
-    g = cls(a, b, boundary=case["boundary"], modified_basis=case["modified"], p=case["p"])
+    bflag = case["boundary"]
+    flavour = case.get("bflavor", "bool")
+    if flavour == "npbool":
+        bflag = np.bool_(bflag)
+    elif flavour == "int":
+        bflag = int(bflag)
+    g = cls(a, b, boundary=bflag, modified_basis=case["modified"], p=case["p"])
     return g, a, b
 
 
@@ -529,12 +551,17 @@ def table_function(case, coords_list):
             fn(tuple(float(x) for x in c))
         return fn
     coeffs = [[float(Fraction(t)) for t in cs] for cs in case["poly"]]
+    if case.get("polynorm"):
+        lo = [float(Fraction(t)) for t in case.get("start", case["a"])]
+        hi = [float(Fraction(t)) for t in case.get("end", case["b"])]
+    else:
+        lo, hi = [0.0] * len(coeffs), [1.0] * len(coeffs)
 
     def pfn(c):
         prod = 1.0
         tot = 0.0
         for d, x in enumerate(c):
-            v = poly_eval(coeffs[d], x)
+            v = poly_eval(coeffs[d], (x - lo[d]) / (hi[d] - lo[d]))
             prod *= v
             tot += v
         return [prod, tot, prod - tot][:outlen]
@@ -580,8 +607,22 @@ def run_grid_case(ctx, drv, case, grid_obj=None, report_case=None, step=None):
         nodes = [tuple(float(x) for x in pt) for pt in g.getPoints()]
         fn = table_function(case, nodes)
         f = make_function(fn, case["outlen"])
-        g.integrate(f, lv, start, end)
+        # use-site observation: what the integrator hands to the hierarchisation at the moment it is used
+        rec = _Recorder(g.integrator.hierarchization)
+        g.integrator.hierarchization = rec
+        try:
+            g.integrate(f, lv, start, end)
+        finally:
+            g.integrator.hierarchization = rec.inner
         num_points = [len(g.get_coordinates_dim(d)) for d in range(dim)]
+        # rarely used public read-only methods in the middle of the sequence must not disturb anything
+        rt = random.Random(case["tseed"] ^ 0x70661)
+        for nm, args in (("levelToNumPoints", (lv,)), ("get_num_points", ()), ("get_weights", ()), ("get_points_and_weights", ()),
+                         ("is_high_order_grid", ()), ("isNested", ()), ("get_coordinates", ()), ("is_global", ())) + \
+                ((("levelToNumPointsWithBoundary", (lv,)), ("get_boundaries", ()), ("get_indexlist", ())) if not is_global else ()):
+            if rt.random() < 0.5:
+                getattr(g, nm)(*args)
+                ctx.count("toggle_calls")
         if is_global:
             surplus = np.array(g.surplus_values[tuple(lv)], dtype=float)
             cgi = ComponentGridInfo(lv, 1)
@@ -592,6 +633,26 @@ def run_grid_case(ctx, drv, case, grid_obj=None, report_case=None, step=None):
         table = np.array([fn(c) for c in nodes], dtype=float).T.reshape(case["outlen"], len(nodes))
         scale = max(1.0, float(np.max(np.abs(table))) if table.size else 1.0)
         nodal = np.array(interp(nodes), dtype=float) if nodes else np.zeros((0, case["outlen"]))
+        if nodes and rec.seen is not None:
+            seen_vals, seen_np = rec.seen
+            if seen_vals.shape != table.shape or not np.array_equal(seen_vals, table) or [int(n) for n in seen_np] != [int(n) for n in num_points]:
+                ctx.violation("use-site-table", dict(tags), rcase,
+                              {"what": "the table handed to HierarchizationLSG inside integrate is not the function at the grid points",
+                               "max_diff": float(np.max(np.abs(seen_vals - table))) if seen_vals.shape == table.shape else None,
+                               "numPoints_seen": [int(n) for n in seen_np], "numPoints": [int(n) for n in num_points]})
+                ok = False
+        # option forwarding: the order and the modified flag must arrive at every basis object / 1-D grid
+        for d in range(dim):
+            objs = [g.get_basis(d, j) for j in range(num_points[d])]
+            bad_p = [j for j, o in enumerate(objs) if getattr(o, "p", case["p"]) != case["p"]]
+            sub_p = getattr(g.grids[d], "p", case["p"]) if hasattr(g, "grids") else case["p"]
+            bad_mod = [j for j, o in enumerate(objs) if kind == "bspline" and type(o).__name__.endswith("Modified") != bool(case["modified"])]
+            if bad_p or sub_p != case["p"] or getattr(g, "p", case["p"]) != case["p"] or bad_mod:
+                ctx.violation("option-forwarding", dict(tags), rcase,
+                              {"dim": d, "basis_with_other_p": bad_p[:5], "subgrid_p": sub_p, "grid_p": getattr(g, "p", None),
+                               "basis_with_other_modified_flag": bad_mod[:5]})
+                ok = False
+                break
         mats, condprod = [], 1.0
         for d in range(dim):
             xs = g.get_coordinates_dim(d)
@@ -633,6 +694,17 @@ def run_grid_case(ctx, drv, case, grid_obj=None, report_case=None, step=None):
                                   {"component": n, "max_error": float(np.max(np.abs(t.reshape(-1) - table[n])))})
                     ok = False
                     break
+            h2 = HierarchizationLSG(g)
+            buf = np.array(table, dtype=float).copy()
+            first = np.array(h2(buf, num_points, g), dtype=float).copy()
+            buf[:] = -2.0 * table                      # the caller reuses its array object
+            second = np.array(h2(buf, num_points, g), dtype=float)
+            lim = 8 * NODE_TOL * relax * max(scale, float(np.max(np.abs(direct))))
+            if not (np.max(np.abs(first - direct)) <= lim and np.max(np.abs(second + 2.0 * direct)) <= lim):
+                ctx.violation("hierarchization-direct", dict(tags, kind="buffer-reuse"), rcase,
+                              {"what": "second call on the same object with the same (overwritten) array object",
+                               "first_diff": float(np.max(np.abs(first - direct))), "second_diff": float(np.max(np.abs(second + 2.0 * direct)))})
+                ok = False
             if not np.allclose(direct, surplus, rtol=0, atol=1e-9 * scale):
                 ctx.violation("hierarchization-direct", dict(tags, kind="differs-from-integrate"), rcase,
                               {"max_diff": float(np.max(np.abs(direct - surplus)))})
@@ -651,9 +723,49 @@ def run_grid_case(ctx, drv, case, grid_obj=None, report_case=None, step=None):
     r = random.Random(case["tseed"] ^ 0x5bd1)
     offpts = []
     for _ in range(case.get("noff", 6)):
-        offpts.append(tuple(dy(r, float(start[d]), float(end[d]), 64) if r.random() < 0.8 else
-                            float(start[d]) + (float(end[d]) - float(start[d])) * r.random() for d in range(dim)))
-    off = np.array(interp(offpts), dtype=float) if (offpts and n_nodes) else None
+        offpts.append(tuple(float(start[d]) + (float(end[d]) - float(start[d])) * (r.randint(0, 64) / 64 if r.random() < 0.8 else r.random())
+                            for d in range(dim)))
+    try:
+        off = np.array(interp(offpts), dtype=float) if (offpts and n_nodes) else None
+    except Exception as e:
+        ctx.violation(probe, dict(tags, kind="exception", at="off-node interpolate"), rcase,
+                      {"exception": exc_kind(e), "message": str(e)[:200],
+                       "where": traceback.format_exc().strip().split("\n")[-3].strip()[:160]})
+        return False
+    if n_nodes and offpts:
+        try:
+            key = tuple(lv) if is_global else (tuple(start), tuple(end), tuple(lv))
+            s0 = np.array(g.surplus_values[key], dtype=float, copy=True)
+            ret = interp(nodes)
+            again = np.array(ret, dtype=float, copy=True)
+            try:
+                ret[...] = 12345.0               # the caller scribbles over the returned array
+            except Exception:
+                pass
+            third = np.array(interp(nodes), dtype=float)
+            pts = [tuple(y) for y in offpts]
+            keep = list(pts)
+            r1 = np.array(interp(pts), dtype=float)
+            unchanged = pts == keep
+            pts[:] = keep[::-1]                  # the caller overwrites its point list in place
+            r2 = np.array(interp(pts), dtype=float)
+            tiny = 1e-12 * max(scale, float(np.max(np.abs(off))))
+            bad = None
+            if not (np.array_equal(again, nodal) and np.array_equal(third, nodal)):
+                bad = "repeated interpolate at the nodes gives another answer"
+            elif not unchanged:
+                bad = "interpolate modified the caller's point list"
+            elif not (np.max(np.abs(r1 - off)) <= tiny and np.max(np.abs(r2 - off[::-1])) <= tiny):
+                bad = "interpolate at a re-used (overwritten) point list of the same length gives stale values"
+            elif not np.array_equal(np.array(g.surplus_values[key], dtype=float), s0):
+                bad = "interpolate modified the stored surpluses"
+            if bad:
+                ctx.violation("repeat-query", dict(tags), rcase, {"what": bad})
+                ok = False
+            ctx.count("repeat_queries")
+        except Exception as e:
+            ctx.violation("repeat-query", dict(tags, kind="exception"), rcase, {"exception": exc_kind(e), "message": str(e)[:200]})
+            ok = False
     specs = [[spec_of(g.get_basis(d, j)) for j in range(num_points[d])] for d in range(dim)]
     have_model = n_nodes > 0 and mats is not None and all(s is not None for sd in specs for s in sd)
     if have_model:
@@ -807,6 +919,19 @@ def run_grid_case(ctx, drv, case, grid_obj=None, report_case=None, step=None):
                 ok = False
         except Exception as e:
             ctx.violation("interpolate-grid", {"kind": exc_kind(e), "global": is_global}, rcase, {"message": str(e)[:200]})
+            ok = False
+    # ---- toggle then second run: `levelToNumPointsWithBoundary` switches the boundary flag of the 1-D grids temporarily
+    if not is_global and n_nodes and grid_obj is None:
+        try:
+            before = ([int(n) for n in num_points], [list(map(float, g.get_coordinates_dim(d))) for d in range(dim)])
+            g.levelToNumPointsWithBoundary(lv)
+            g.setCurrentArea(start, end, lv)
+            after = ([len(g.get_coordinates_dim(d)) for d in range(dim)], [list(map(float, g.get_coordinates_dim(d))) for d in range(dim)])
+            if before != after:
+                ctx.violation("toggle-second-run", dict(tags), rcase, {"numPoints_first": before[0], "numPoints_second": after[0]})
+                ok = False
+        except Exception as e:
+            ctx.violation("toggle-second-run", dict(tags, kind="exception"), rcase, {"exception": exc_kind(e), "message": str(e)[:200]})
             ok = False
     # (last block: it re-integrates the grid with another function and thereby replaces the stored surpluses)
     # ---- modified B-spline basis (the in-library consumer of the B-spline derivatives): with the boundary functions
@@ -1112,14 +1237,35 @@ def run_siblings_case(ctx, drv, case):
     return ok
 
 
+def extreme_box(r, dim):
+    """boxes far from the origin (|a| / (b - a) up to 1e4, both signs) and tiny boxes (width down to 2^-40), dyadic so
+    that every grid point stays exactly representable"""
+    a, b = [], []
+    for _ in range(dim):
+        if r.random() < 0.5:
+            w = 2.0 ** (-r.randint(0, 8))
+            k = r.randint(100, 10000) * r.choice([-1, 1])
+            a.append(k * w)
+            b.append(k * w + w * r.choice([1, 1, 2]))
+        else:
+            w = 2.0 ** (-r.randint(20, 40))
+            k = r.choice([0, 0, 1, -1, 3, -5])
+            a.append(k * w)
+            b.append(k * w + w)
+    return a, b
+
+
 def gen_local_case(r, thorough):
     fam = r.choice(LOCAL)
-    p = r.choice([1, 2, 3, 5]) if fam == "LagrangeGrid" else r.choice([1, 3, 5])
+    p = r.choice([1, 2, 3, 5, 1, 2, 3, 5, 4, 6, 7, 8, 9]) if fam == "LagrangeGrid" else r.choice([1, 3, 5, 1, 3, 5, 7, 9])
     dim = r.choice([1, 1, 2, 2, 3])
     boundary = r.random() < 0.8
     modified = (not boundary) and fam == "BSplineGrid" and r.random() < 0.4
     a = [r.choice([0, 0, -1]) for _ in range(dim)]
     b = [a[d] + r.choice([1, 1, 2, 3]) for d in range(dim)]
+    extreme = r.random() < 0.15
+    if extreme:
+        a, b = extreme_box(r, dim)
     start, end = [], []
     for d in range(dim):
         if r.random() < 0.4:
@@ -1138,7 +1284,9 @@ def gen_local_case(r, thorough):
             break
     case = {"kind": "grid", "family": fam, "p": p, "boundary": boundary, "modified": modified,
             "a": [fs(x) for x in a], "b": [fs(x) for x in b], "start": [fs(x) for x in start], "end": [fs(x) for x in end],
-            "lv": lv, "tseed": r.randrange(1 << 30), "noff": 5}
+            "lv": lv, "tseed": r.randrange(1 << 30), "noff": 5, "bflavor": r.choice(["bool", "bool", "npbool", "int"])}
+    if extreme:
+        case["polynorm"] = True
     if boundary and r.random() < 0.45:
         gen_poly(r, case, [full_levels(l) for l in lv], [2 ** l + 1 for l in lv])
     else:
@@ -1150,12 +1298,15 @@ def gen_local_case(r, thorough):
 
 def gen_global_case(r, thorough):
     fam = r.choice(GLOBAL)
-    p = r.choice([1, 2, 3, 5]) if fam == "GlobalLagrangeGrid" else r.choice([1, 3, 5])
+    p = r.choice([1, 2, 3, 5, 1, 2, 3, 5, 4, 6, 7, 8, 9]) if fam == "GlobalLagrangeGrid" else r.choice([1, 3, 5, 1, 3, 5, 7, 9])
     dim = r.choice([1, 1, 2, 2, 3])
     boundary = r.random() < 0.7
     modified = (not boundary) and r.random() < 0.4
     a = [r.choice([0, 0, -1, -3]) for _ in range(dim)]
     b = [a[d] + r.choice([1, 1, 2, 9]) for d in range(dim)]
+    extreme = r.random() < 0.15
+    if extreme:
+        a, b = extreme_box(r, dim)
     budget = 1300 if thorough else 450
     while True:
         ns = []
@@ -1181,7 +1332,9 @@ def gen_global_case(r, thorough):
         levels.append([int(l) for l in ls])
     case = {"kind": "grid", "family": fam, "p": p, "boundary": boundary, "modified": modified,
             "a": [fs(x) for x in a], "b": [fs(x) for x in b], "points": points, "levels": levels,
-            "tseed": r.randrange(1 << 30), "noff": 5}
+            "tseed": r.randrange(1 << 30), "noff": 5, "bflavor": r.choice(["bool", "bool", "npbool", "int"])}
+    if extreme:
+        case["polynorm"] = True
     if boundary and r.random() < 0.45:
         gen_poly(r, case, levels, [len(x) for x in points])
     else:
@@ -1287,7 +1440,22 @@ def run(ctx):
         old_handler = signal.signal(signal.SIGALRM, on_alarm)
         signal.setitimer(signal.ITIMER_REAL, case_limit)
         try:
+          try:
             return run_case(ctx, state["drv"], case)
+          except CaseTimeout:
+            raise
+          except Exception as e:
+            # an exception of the implementation on a valid input is a violation with this case as replay, never a
+            # harness crash; an exception of the harness itself is reported WITH the case
+            import common
+            tb = traceback.extract_tb(e.__traceback__)
+            in_impl = bool(tb) and os.path.realpath(tb[-1].filename).startswith(os.path.realpath(common.REPO))
+            info = {"exception": exc_kind(e), "message": str(e)[:200], "where": "%s:%d %s" % (os.path.basename(tb[-1].filename), tb[-1].lineno, tb[-1].line) if tb else ""}
+            if in_impl:
+                ctx.violation("exception-on-valid-input", {"kind": case.get("kind"), "family": case.get("family", case.get("cls"))}, case, info)
+            else:
+                ctx.corr_break("C10/harness-exception", case, dict(info, traceback=traceback.format_exc()[-1500:]))
+            return False
         except CaseTimeout:
             ctx.corr_break("C10/case-time-limit", case, {"limit_s": case_limit})
             state["drv"] = ctx.driver("drv_c10")     # the old connection may be in the middle of an answer
